@@ -98,6 +98,10 @@ type c16Obs struct {
 
 // c16RunHistory replays the operations of a history on a real Set; returns per-op observations.
 // customCache=false uses the Set's default cache (cache calls are then not observable).
+// c16Import: the text given to Set.Parse pulls its dependency in with {{import}} instead of {{extends}}; the
+// look-ups (and the rule that Parse caches nothing) are the same, what is rendered is not compared
+var c16Import = false
+
 func c16RunHistory(v *c16Vec, customCache bool) []c16Obs {
 	c16Keep = c16Keep[:0]
 	fl := &faultLoader{files: map[string]fFile{}}
@@ -139,7 +143,11 @@ func c16RunHistory(v *c16Vec, customCache bool) []c16Obs {
 			t, err := set.Parse("p", `</p#0:{{block b()}}-{{end}}>`)
 			o = c16Observe(t, err)
 		case "ParseExt":
-			t, err := set.Parse("p", `{{extends "`+op.N+`"}}{{block b()}}/p#0{{end}}`)
+			src := `{{extends "` + op.N + `"}}{{block b()}}/p#0{{end}}`
+			if c16Import {
+				src = `{{import "` + op.N + `"}}{{block b()}}/p#0{{end}}`
+			}
+			t, err := set.Parse("p", src)
 			o = c16Observe(t, err)
 		case "LoaderSet", "InjectFault", "ClearFault":
 			fl.files[op.N] = *op.F
@@ -216,7 +224,7 @@ func c16Compare(v *c16Vec, obs []c16Obs, customCache bool) (ok bool, at int, why
 				return false, i, fmt.Sprintf("calls: spec %v, real %v", exp, got)
 			}
 		}
-		if !op.OK || op.T.Tid == 0 {
+		if !op.OK || op.T.Tid == 0 || (c16Import && op.Op == "ParseExt") {
 			continue
 		}
 		if want := op.T.render(); o.Out != want {
@@ -266,7 +274,16 @@ func c16Replay(i int, raw json.RawMessage) Result {
 			break
 		}
 	}
-	for _, custom := range []bool{true, false} {
+	hasParse := false
+	for _, op := range v.Hist {
+		hasParse = hasParse || op.Op == "ParseExt"
+	}
+	for pass, custom := range []bool{true, false, true} {
+		c16Import = pass == 2
+		if c16Import && !hasParse {
+			c16Import = false
+			break
+		}
 		obs := c16RunHistory(&v, custom)
 		ok, at, why := c16Compare(&v, obs, custom)
 		if !ok {
@@ -275,10 +292,13 @@ func c16Replay(i int, raw json.RawMessage) Result {
 			}
 			sig := c16Sig(&v, at, why)
 			sig["custom_cache"] = custom
+			sig["import"] = c16Import
+			c16Import = false
 			return Result{OK: false, Sig: sig, Observed: obs, Key: key,
 				Detail: fmt.Sprintf("op %d (%s %s): %s", at, v.Hist[at].Op, v.Hist[at].N, why)}
 		}
 	}
+	c16Import = false
 	return Result{OK: true, Key: key}
 }
 
